@@ -76,3 +76,6 @@ void h_drive(void) { cv_i32 x = nondet_unsigned(); drive_reset(); cv_i32 r = dri
 #ifdef DRV_dbg5
 void h_drive(void) { cv_i32 x = nondet_unsigned(); drive_reset(); cv_i32 r = drive_dbg5(x); __CPROVER_assert(r == 1, "DBG suspended"); __CPROVER_assert(0, "SENTINEL reachable: scenario ran to its end"); }
 #endif
+#ifdef DRV_dbg6
+void h_drive(void) { cv_i32 x = nondet_unsigned(); drive_reset(); cv_i32 r = drive_dbg6(x); __CPROVER_assert(r == 1, "DBG claim returns the future; still pending"); __CPROVER_assert(0, "SENTINEL reachable: scenario ran to its end"); }
+#endif
